@@ -114,6 +114,39 @@ def check(F, R, tier):
     eb = drain_cl.calls(r'WaiterInterface.*::empty_buffer$')
     ed = drain_cl.calls(r'EventState.*::drain$')
     dom(R, drain_cl, eb, ed, 'empty_buffer<event.drain', 'a trigger arriving after the buffer was emptied stays pending for the next wait')
+    # ---- BitSet::set_bit / clear_bit: several ids share one atomic word; a failed compare_exchange (another id of the same word changed, or the
+    # listener swapped the word to 0) must be retried - giving up silently drops a notified id
+    for nm in ('set_bit', 'clear_bit'):
+        for g in F.find_fns(r'^iceoryx2_bb_lock_free::mpmc::bit_set::details::BitSet::<.*>::%s$' % nm):
+            cs_ = [a for a in g.atomic_ops() if a.op.startswith('compare_exchange')]
+            for a in cs_:
+                back = g.exists_path(a.site, [a.site], [])
+                R.ob('LOOP', 'LOOP::%s::failed-CAS-is-retried' % fnkey(g), back is not None, 'the word CAS of %s lies on a cycle (retry loop): %s' % (nm, 'yes' if back is not None else 'NO - a failed exchange is not retried, the bit of this id is lost when a neighbouring id changes the word concurrently'), a.site.where, g)
+            if not cs_:
+                R.ob('LOOP', 'LOOP::%s::failed-CAS-is-retried' % fnkey(g), False, 'anchor-missing: no compare_exchange in %s' % nm, '%s:%s' % (g.file, g.line), g)
+    # ---- trigger tokens are consumed only by the drain protocol: inside drain_events (fast-path empty_buffer) or as the `wait_call` closure a
+    # Listener wrapper hands to drain_events; a wrapper that consumes a token itself (e.g. a clean-up empty_buffer after the drain) swallows
+    # the wake-up of a notifier that set its id after the drain passed it
+    cons = [s_ for s_ in F.callers_of(r'event::trigger::WaiterInterface::(empty_buffer|try_wait|timed_wait|blocking_wait)$') if s_.fn.id.startswith('iceoryx2_cal::event::common::') or s_.fn.id.startswith('<iceoryx2_cal::event::common::')]
+    nc = 0
+    for s_ in cons:
+        g = s_.fn
+        ok = False
+        why = 'called in %s' % g.id.rsplit('::', 2)[-2:]
+        if g.kind == 'closure':
+            par = F.fn_opt(g.parent) if g.parent else None
+            if par is not None and par.id.endswith('::drain_events'):
+                ok = True
+            elif par is not None:
+                # the closure is passed to drain_events by its parent
+                for d in par.calls(r'Waiter::<.*>::drain_events$'):
+                    for a in d.args:
+                        pr = par.prov_operand(a)
+                        if pr.root[0] == 'agg' and g.id in str(pr.root[1]):
+                            ok = True
+        nc += 1
+        R.ob('WHO-MAY-CALL', 'WHO-MAY-CALL::%s::token-consumed-only-by-the-drain-protocol::%s' % (fnkey(g), s_.callee.rsplit('::', 1)[-1]), ok, '%s consumes a trigger token; it lies inside drain_events or is the wait_call closure handed to drain_events (%s)' % (core.short(s_.callee), why), s_.where, g)
+    R.floor('token-consuming WaiterInterface calls in event::common', nc, 4)
     # ---- no phantom ids: reset_all callbacks get indices derived from the swap result only under a bit test of it
     for path, swap_ty in (('iceoryx2_bb_lock_free::mpmc::bit_set::details::BitSet::<PointerType>::reset_all', 'u8'),):
         f = F.fn(path)
